@@ -43,3 +43,10 @@ func H_ClosePositions_Long() { h_c09.H_ClosePositions_Long_AtomCollateral() }
 //vrf:bound see h_c10.H_Perp_ClosePositions_TwoOfOnePool_Ledger
 //vrf:max-paths 6000
 func H_ClosePositions_TwoOfOnePool() { h_c10.H_Perp_ClosePositions_TwoOfOnePool_Ledger() }
+
+// a liquidity-pool operation refreshes only the pool part of the accounted balance
+//
+//vrf:summary (*github.com/elys-network/elys/x/amm/types.Pool).JoinPool => h_c02.SumPoolJoin
+//vrf:cover join-ok
+//vrf:bound see h_c09.H_AmmJoin_KeepsAccountedPool
+func H_AmmJoin_WithPerpetualPositions() { h_c09.H_AmmJoin_KeepsAccountedPool() }
